@@ -893,20 +893,21 @@ func replyOfflineTopicSetSub(sess *Session, msg *ClientComMessage) {
 				// is muted or un-muted so it stops or resumes relaying presence from this topic.
 				wasPresencer := (oldWant & sub.ModeGiven).IsPresencer()
 				isPresencer := (sub.ModeWant & sub.ModeGiven).IsPresencer()
-				if wasPresencer != isPresencer && !types.IsChannel(topicName) {
-					var source string
-					switch types.GetTopicCat(msg.RcptTo) {
-					case types.TopicCatP2P:
-						if uid1, uid2, err := types.ParseP2P(msg.RcptTo); err == nil {
-							other := uid1
-							if other == asUid {
-								other = uid2
-							}
-							source = other.UserId()
+				// The name of the topic as the user's 'me' topic knows it.
+				var source string
+				switch types.GetTopicCat(msg.RcptTo) {
+				case types.TopicCatP2P:
+					if uid1, uid2, err := types.ParseP2P(msg.RcptTo); err == nil {
+						other := uid1
+						if other == asUid {
+							other = uid2
 						}
-					case types.TopicCatGrp:
-						source = msg.RcptTo
+						source = other.UserId()
 					}
+				case types.TopicCatGrp:
+					source = topicName
+				}
+				if wasPresencer != isPresencer && !types.IsChannel(topicName) {
 					if source != "" {
 						what := "off+dis"
 						if isPresencer {
@@ -919,6 +920,16 @@ func replyOfflineTopicSetSub(sess *Session, msg *ClientComMessage) {
 							RcptTo: asUid.UserId(),
 						}
 					}
+				}
+				if source != "" {
+					// Tell the user's other sessions on 'me' that the permissions have changed, like a loaded
+					// topic does.
+					dWant := sub.ModeWant.String()
+					if !oldWant.IsZero() {
+						dWant = oldWant.Delta(sub.ModeWant)
+					}
+					presSingleUserOfflineOffline(asUid, source, "acs",
+						&presParams{target: asUid.UserId(), actor: asUid.UserId(), dWant: dWant}, sess.sid)
 				}
 				params = map[string]any{
 					"acs": MsgAccessMode{
